@@ -21,7 +21,8 @@ TraceInit == tid \in DOMAIN Traces /\ InitWith(CfgOf(Traces[tid][1])) /\ l = 2
 
 TBeginStep == IsEvent("BeginStep") /\ BeginStep /\ k' = Rec.k
 \* held logged as [[agent, source, epoch], ...] for every agent of the scenario
-HeldMatch(h, seq) == \A i \in DOMAIN seq : h[seq[i][1]] = <<seq[i][2], seq[i][3]>>
+\* 4th field: the agent's derived Earth-fixed state belongs to the same epoch as the imported inertial state
+HeldMatch(h, seq) == \A i \in DOMAIN seq : h[seq[i][1]] = <<seq[i][2], seq[i][3]>> /\ seq[i][4]
 TImportOk == IsEvent("ImportOk") /\ ImportOk /\ HeldMatch(held', Rec.held)
 TImportMissing == IsEvent("ImportMissing") /\ ImportMissing
 TSkipImport == IsEvent("SkipImport") /\ SkipImport
